@@ -36,7 +36,9 @@ def main(argv):
     if sim:
         info = tlcrun.run_tlc(mod, cfg, workers=1, simulate=f"num={sim[0]}", depth=int(sim[1]), seed=int(sim[2]), tag=tag)
     else:
-        info = tlcrun.run_tlc(mod, cfg, workers=1, tag=tag)
+        # (at depth >= 3 an intermediate product can leave TLC's 32-bit integers, e.g. a target 5 ppm from the current
+        # concentration of a state with large denominators: the level being generated is then truncated, see tlcrun)
+        info = tlcrun.run_tlc(mod, cfg, workers=1, tag=tag, tolerate_overflow=depth >= 3)
     t_tlc = time.time() - t0
     it = tlcrun.emitted(info["out"])
     config = json.loads(next(it))["config"]
@@ -49,8 +51,8 @@ def main(argv):
     res = {
         "instance": instance, "depth": depth, "shard": shard, "nshards": nshards, "instantiation": inst.name,
         "simulate": sim, "config": {"shape": config["shape"], "regions": config["regions"]}, "pyplate": os.path.dirname(pp.__file__),
-        "tlc": {k: info[k] for k in ("generated", "distinct", "depth", "wall", "cmd")},
-        "counts": rp.counts, "evaluated": rp.evaluated,
+        "tlc": dict({k: info[k] for k in ("generated", "distinct", "depth", "wall", "cmd")}, truncated=info.get("truncated")),
+        "counts": dict(rp.counts, tlc_truncated_by_32bit_overflow=1 if info.get("truncated") else 0), "evaluated": rp.evaluated,
         "by_class": {"|".join(map(str, k)): n for k, n in rp.by_class.items()},
         "distinct_states": len(rp.states),
         "violations": [v.as_dict() for v in rp.viol],
